@@ -94,6 +94,13 @@ def existsOrMatchWith (fuel : Nat) (a : AST) (doc : Item) (o : Opts) : Outcome :
 inductive Entry | query | first | exists | match_ | existsOrMatch
 deriving Repr, DecidableEq, Inhabited
 
+/-- the executor run underlying an entry point (collect mode, or probe mode for Exists) -/
+def runRes (e : Entry) (fuel : Nat) (a : AST) (doc : Item) (o : Opts) : Res :=
+  match e with
+  | .exists => existsRun fuel a doc o
+  | .existsOrMatch => if a.pred then execute fuel a doc o else existsRun fuel a doc o
+  | _ => execute fuel a doc o
+
 def run (e : Entry) (fuel : Nat) (a : AST) (doc : Item) (o : Opts) : Outcome :=
   match e with
   | .query => queryWith fuel a doc o
